@@ -19,7 +19,7 @@ send_op = st.tuples(st.sampled_from(["c", "s"]), scen.size_specs, st.sampled_fro
                     st.sampled_from([0, 0, 0, 1])).map(list)
 big_op = st.tuples(st.sampled_from(["c", "s"]),
                    st.one_of(st.tuples(st.just("kF"), st.tuples(st.integers(2, 12), st.integers(-8, 8)).map(list)).map(list),
-                             st.tuples(st.just("abs"), st.sampled_from([5000, 20000, 65536])).map(list)),
+                             st.tuples(st.just("abs"), st.sampled_from([5000, 20000, 20000, 65536, 65536, 65536, 330000])).map(list)),
                    st.sampled_from([0, 1, -1, -1]), st.sampled_from([0, 0, 1])).map(list)
 
 
